@@ -47,11 +47,12 @@ const (
 	SendRefuse         // transport answered "not delivered" (success=false)
 	SendError          // transport answered with an error
 	CommitFail         // every statement succeeds but the COMMIT fails (SQLite rolls back)
+	StmtFail           // the first row change in the tasks / callbacks table fails (a statement in the middle of the transaction returns an error)
 	Late               // executed now, the completion reaches the coroutine with the NEXT tick (whatever causes it: another completion, a clock step, a sweep)
 )
 
 func (o Outcome) String() string {
-	return [...]string{"ok", "fail-before", "fail-after", "send-refused", "send-error", "commit-fails", "ok-delivered-with-the-next-tick"}[o]
+	return [...]string{"ok", "fail-before", "fail-after", "send-refused", "send-error", "commit-fails", "statement-fails", "ok-delivered-with-the-next-tick"}[o]
 }
 
 var BackgroundNames = []string{"TimeoutPromises", "SchedulePromises", "TimeoutLocks", "EnqueueTasks", "TimeoutTasks"}
@@ -392,6 +393,13 @@ func (w *World) installCommitFaults() {
 			stmts = append(stmts, fmt.Sprintf(`CREATE TRIGGER IF NOT EXISTS verif_cf_%s_%s AFTER %s ON %s WHEN (SELECT armed FROM verif_arm) = 1 BEGIN INSERT INTO verif_fk(x) VALUES ('missing'); END`, t, op, op, t))
 		}
 	}
+	// a statement that fails in the middle of a transaction: while armed = 2 the first row
+	// change in tasks or callbacks raises an error (the commands before it have succeeded)
+	for _, t := range []string{"tasks", "callbacks"} {
+		for _, op := range []string{"INSERT", "UPDATE", "DELETE"} {
+			stmts = append(stmts, fmt.Sprintf(`CREATE TRIGGER IF NOT EXISTS verif_sf_%s_%s BEFORE %s ON %s WHEN (SELECT armed FROM verif_arm) = 2 BEGIN SELECT RAISE(ABORT, 'verif injected statement failure'); END`, t, op, op, t))
+		}
+	}
 	for _, q := range stmts {
 		if _, err := w.db.Exec(q); err != nil {
 			panic(fmt.Sprintf("verif: commit-fault machinery: %v (%s)", err, q))
@@ -532,11 +540,27 @@ func (w *World) boot(img *Image) {
 	w.db = st.VerifDB()
 	w.db.SetMaxOpenConns(1)
 	w.dumpStmts = nil
+	var stored *Dump
 	if img != nil {
 		restore(w.db, img)
+		if d, err := DumpDB(w.db); err == nil {
+			stored = d
+		}
 	}
 	if err := st.Start(nil); err != nil {
 		panic(fmt.Sprintf("verif: store start: %v", err))
+	}
+	if stored != nil {
+		// starting the store on an existing database must leave the stored data alone
+		w.dumpStmts = nil
+		if d, err := DumpDB(w.db); err != nil || d.Text() != stored.Text() {
+			after := "unreadable"
+			if err == nil {
+				after = d.Text()
+			}
+			w.Violate("restart-changed-database", "starting the server on an existing database changed the stored data:\nstored:\n%s\nafter start:\n%s", stored.Text(), after)
+		}
+		w.dumpStmts = nil
 	}
 	if w.Cfg.CommitFaults {
 		w.installCommitFaults()
@@ -841,8 +865,11 @@ func (w *World) ExecBatch(idxs []int, o Outcome) {
 	if o == CommitFail {
 		w.arm(1)
 	}
+	if o == StmtFail {
+		w.arm(2)
+	}
 	cqes := w.store.Process(sqes)
-	if o == CommitFail {
+	if o == CommitFail || o == StmtFail {
 		w.arm(0)
 	}
 	w.lateNow = o == Late
@@ -855,7 +882,7 @@ func (w *World) ExecBatch(idxs []int, o Outcome) {
 			ev.Err = c.Error
 		}
 	}
-	if ev.Err != nil && o != CommitFail {
+	if ev.Err != nil && o != CommitFail && o != StmtFail {
 		// (other than the injected COMMIT failure) the explorer injects failures by
 		// replacing completions, never by making SQL fail: an error out of the store
 		// itself is never silently explored past
@@ -959,10 +986,20 @@ func (w *World) Crash() {
 }
 
 // Quiesce executes pending submissions oldest first, all OK, until none is left.
-func (w *World) Quiesce() {
+// Undelivered: completions executed with outcome Late that no tick has delivered yet.
+func (w *World) Undelivered() int { return len(w.aio.cqes) }
+
+// Flush delivers completions that were executed with outcome Late and not delivered yet.
+func (w *World) Flush() {
 	if len(w.aio.cqes) > 0 {
+		w.Step++
+		w.logf("tick (late completions delivered)")
 		w.Tick()
 	}
+}
+
+func (w *World) Quiesce() {
+	w.Flush()
 	for i := 0; len(w.aio.pending) > 0; i++ {
 		if i > 3000 {
 			panic("verif: quiesce did not terminate (a request or sweep keeps issuing submissions)")
